@@ -293,6 +293,7 @@ Proof.
     destruct (referenced n (tags st)); [exact H|].
     apply cinv_set_tags. apply cinv_fold; [intros; apply cinv_detach; assumption|exact H].
   - (* AQuery *) simpl. destruct (tget n (tags st)); [|exact H].
+    destruct (complex d && _); [exact H|].
     destruct (refs_ok n d (tags st)); [|exact H].
     apply cinv_start_converter, cinv_start_tagging, cinv_set_tags, H.
   - (* AMarkAdd *) simpl. destruct (tget n (tags st)); [|exact H]. destruct ids; [exact H|].
